@@ -385,6 +385,57 @@ theorem mapVector3d_eq (sqrt : α → α) (atan2 : α → α → α) (cos sin : 
       ∀ u, dot w (rotateZ (cos (atan2 y x)) (sin (atan2 y x)) u) = dot v u :=
   rotation_preserves_components sqrt atan2 cos sin pi _ x y z w hcs hpi hw
 
+/-! ## the property sentence at the level of one equilibrium -/
+
+/-- scalar mapping of an equilibrium: profile at the normalised flux of the point inside the LCFS, outside value elsewhere -/
+theorem eq_map2d_cases (e : Eq α) (outside : α) (profile : α → α) (r z : α) :
+    e.map2d outside profile r z =
+      if 0 < e.poly r z ∧ e.psiN r z ≤ 1 then profile (e.psiN r z) else outside :=
+  map2d_cases outside profile e.poly e.interpN r z
+
+/-- … axisymmetric in 3-D -/
+theorem eq_map3d_axisymmetric (sqrt : α → α) (e : Eq α) (outside : α) (profile : α → α) (x y z c s : α)
+    (hcs : c * c + s * s = 1) :
+    e.map3d sqrt outside profile (c * x - s * y) (s * x + c * y) z = e.map3d sqrt outside profile x y z :=
+  map3d_axisymmetric sqrt outside profile e.poly e.interpN x y z c s hcs
+
+theorem eq_psiN_nonneg (e : Eq α) (r z : α) : 0 ≤ e.psiN r z := psiN_nonneg e.interpN r z
+
+/-- inside the LCFS, away from the degenerate point, `map_vector2d` does not raise and has exactly the prescribed
+components in the equilibrium's own basis at that point -/
+theorem eq_velocity_components (sqrt : α → α) (hs : SqrtSpec sqrt) (slerp : V3 α → V3 α → α → V3 α) (e : Eq α)
+    (outside : V3 α) (tor pol nrm : α → α) (r z : α) (p n : V3 α)
+    (hin : 0 < e.poly r z ∧ e.psiN r z ≤ 1)
+    (h : ¬ ((e.bField r z).x = 0 ∧ (e.bField r z).z = 0))
+    (hp : e.poloidal sqrt r z = some p) (hn : e.normal sqrt r z = some n) :
+    ∃ v, e.mapVector2d sqrt slerp outside tor pol nrm r z = some v ∧
+      dot v toroidalVector = tor (e.psiN r z) ∧ dot v p = pol (e.psiN r z) ∧ dot v n = nrm (e.psiN r z) := by
+  rw [mapVector2d_cases, if_pos hin]
+  exact velocity_components sqrt hs _ p n _ tor pol nrm h hp hn
+
+/-- 3-D: the same components with respect to the basis rotated to the toroidal angle of the point -/
+theorem eq_velocity_components_3d (sqrt : α → α) (hs : SqrtSpec sqrt) (atan2 : α → α → α) (cos sin : α → α) (pi : α)
+    (slerp : V3 α → V3 α → α → V3 α) (e : Eq α) (outside : V3 α) (tor pol nrm : α → α) (x y z : α) (p n w : V3 α)
+    (hcs : ∀ a, cos a * cos a + sin a * sin a = 1) (hpi : pi ≠ 0)
+    (hin : 0 < e.poly (sqrt (x * x + y * y)) z ∧ e.psiN (sqrt (x * x + y * y)) z ≤ 1)
+    (h : ¬ ((e.bField (sqrt (x * x + y * y)) z).x = 0 ∧ (e.bField (sqrt (x * x + y * y)) z).z = 0))
+    (hp : e.poloidal sqrt (sqrt (x * x + y * y)) z = some p) (hn : e.normal sqrt (sqrt (x * x + y * y)) z = some n)
+    (hw : e.mapVector3d sqrt atan2 cos sin pi slerp outside tor pol nrm x y z = some w) :
+    let R := rotateZ (cos (atan2 y x)) (sin (atan2 y x))
+    dot w (R toroidalVector) = tor (e.psiN (sqrt (x * x + y * y)) z) ∧
+    dot w (R p) = pol (e.psiN (sqrt (x * x + y * y)) z) ∧
+    dot w (R n) = nrm (e.psiN (sqrt (x * x + y * y)) z) := by
+  obtain ⟨v, hv, _, hdot⟩ := mapVector3d_eq sqrt atan2 cos sin pi slerp e outside tor pol nrm x y z w hcs hpi hw
+  obtain ⟨v', hv', h1, h2, h3⟩ := eq_velocity_components sqrt hs slerp e outside tor pol nrm _ z p n hin h hp hn
+  rw [hv] at hv'; cases hv'
+  exact ⟨by rw [hdot]; exact h1, by rw [hdot]; exact h2, by rw [hdot]; exact h3⟩
+
+/-- outside the LCFS the 3-D vector map is the rotated outside vector -/
+theorem eq_mapVector2d_outside (sqrt : α → α) (slerp : V3 α → V3 α → α → V3 α) (e : Eq α)
+    (outside : V3 α) (tor pol nrm : α → α) (r z : α) (hout : ¬ (0 < e.poly r z ∧ e.psiN r z ≤ 1)) :
+    e.mapVector2d sqrt slerp outside tor pol nrm r z = some outside := by
+  rw [mapVector2d_cases, if_neg hout]
+
 /-! ## non-vacuity -/
 
 example : SqrtSpec Real.sqrt := fun x hx => ⟨Real.mul_self_sqrt hx, Real.sqrt_nonneg x⟩
